@@ -20,7 +20,7 @@ def sh(cmd, cwd, timeout=900):
     return r.returncode, r.stdout + r.stderr
 
 def main():
-    sid, prop, src = sys.argv[1], sys.argv[2], sys.argv[3]
+    sid, prop, src = sys.argv[1], sys.argv[2], os.path.abspath(sys.argv[3])
     props = [prop]
     keep = "--keep" in sys.argv
     if "--props" in sys.argv:
@@ -30,7 +30,7 @@ def main():
     demos = sorted(set(demos))
     assert os.path.exists(patch) and demos, (patch, demos)
     tmp = tempfile.mkdtemp(prefix="seedchk-")
-    meta = {"id": sid, "property": prop, "checked_properties": props, "source_dir": src}
+    meta = {"id": sid, "property": prop, "checked_properties": props}
     try:
         dst = os.path.join(tmp, "repo")
         shutil.copytree("/repo", dst, ignore=shutil.ignore_patterns(".git"))
@@ -77,11 +77,12 @@ def main():
     if meta.get("confirmed"):
         out_dir = os.path.join(HERE, "seeded", sid)
         os.makedirs(out_dir, exist_ok=True)
-        shutil.copy(patch, os.path.join(out_dir, "patch.diff"))
-        for d in demos:
-            shutil.copy(d, out_dir)
-        if os.path.exists(os.path.join(src, "notes.md")):
-            shutil.copy(os.path.join(src, "notes.md"), out_dir)
+        if os.path.realpath(src) != os.path.realpath(out_dir):
+            shutil.copy(patch, os.path.join(out_dir, "patch.diff"))
+            for d in demos:
+                shutil.copy(d, out_dir)
+            if os.path.exists(os.path.join(src, "notes.md")):
+                shutil.copy(os.path.join(src, "notes.md"), out_dir)
         meta["what_i_ran"] = "tools/seedcheck.py: patch -p1 onto a scratch copy of /repo; go build; tools/baseline.sh (all 663 baseline tests); go test -run <demo> with and without the patch; bin/apcheck -target <scratch> -property <props>"
         json.dump(meta, open(os.path.join(out_dir, "meta.json"), "w"), indent=1)
     print(json.dumps({k: meta[k] for k in meta if k not in ("demo_output_with_patch",)}, indent=1))
